@@ -157,7 +157,7 @@ func featuresXML(f string) string {
 		sb.WriteString("<starttls xmlns='" + nsTLS + "'><required/></starttls>")
 	}
 	if f[1] == '1' {
-		sb.WriteString("<mechanisms xmlns='" + nsSASL + "'><mechanism>SCRAM-SHA-1</mechanism><mechanism>PLAIN</mechanism></mechanisms>")
+		sb.WriteString("<mechanisms xmlns='" + nsSASL + "'><mechanism>SCRAM-SHA-1</mechanism><mechanism>X-OAUTH2</mechanism><mechanism>PLAIN</mechanism></mechanisms>")
 	} else {
 		sb.WriteString("<mechanisms xmlns='" + nsSASL + "'><mechanism>SCRAM-SHA-1</mechanism></mechanisms>")
 	}
@@ -326,7 +326,8 @@ func (sv *negServer) serve(conn net.Conn) {
 			if err := dec.DecodeElement(&au, &se); err != nil {
 				return
 			}
-			if au.Mechanism == "PLAIN" && au.Value == base64.StdEncoding.EncodeToString([]byte("\x00test\x00secret")) {
+			// (a bearer token travels under X-OAUTH2 with the same payload shape: NUL local part NUL token)
+			if (au.Mechanism == "PLAIN" || au.Mechanism == "X-OAUTH2" && sv.m["cred"] == "token") && au.Value == base64.StdEncoding.EncodeToString([]byte("\x00test\x00secret")) {
 				sv.rec("auth", secure)
 			} else {
 				sv.rec("auth-payload-mismatch", secure)
@@ -708,6 +709,9 @@ func (np negProp) Exec(c Case) []string {
 			defer lf.Close()
 		}
 	}
+	if v["cred"] == "token" {
+		cfg.Credential = xmpp.OAuthToken("secret") // a bearer token instead of a password: X-OAUTH2, same payload shape
+	}
 	if v["cfgreuse"] == "true" {
 		// the application re-uses a configuration value that already went through NewClient for ANOTHER account of the
 		// same server (a struct copy with Jid and credential replaced): the new client is the new account's
@@ -805,7 +809,11 @@ func (np negProp) Exec(c Case) []string {
 			for _, ch := range c.ID {
 				hsh = hsh*31 + int(ch)
 			}
-			obs = append(obs, np.oneConn(client, cfg, xt, opMap(op[1:]), i+hsh))
+			mm := opMap(op[1:])
+			if v["cred"] == "token" {
+				mm["cred"] = "token"
+			}
+			obs = append(obs, np.oneConn(client, cfg, xt, mm, i+hsh))
 		default:
 			obs = append(obs, "bad-op")
 		}
